@@ -63,3 +63,151 @@ Proof. reflexivity. Qed.
 
 Theorem CombinedRegistry_len_eq d : CombinedRegistry_len d = Ok (Z.of_nat (List.length d)).
 Proof. reflexivity. Qed.
+
+(* ======================================================================================== *)
+(* EmbeddedRegistry and FilesystemRegistry as regenerated from registry/base.py             *)
+(* ======================================================================================== *)
+
+From MV Require Import SrcEquivRecord.
+From Coq Require Import Lia.
+
+(* the archive index the model speaks about: (member name, record id) *)
+Definition emb_index (self : embreg) : list (string * string) :=
+  map (fun e => (te_name e, gr_id (te_record e))) (emb_archive self).
+
+Theorem EmbeddedRegistry_iter_eq self : EmbeddedRegistry_iter self = Ok (emb_iter (emb_index self)).
+Proof.
+  unfold EmbeddedRegistry_iter, emb_stream, tar_open_gz, tar_iter, emb_iter, emb_index.
+  rewrite (py_mapM_map te_name) by reflexivity. cbn [bind app]. now rewrite map_map.
+Qed.
+
+Theorem EmbeddedRegistry_len_eq self : EmbeddedRegistry_len self = Ok (Z.of_nat (emb_len (emb_index self))).
+Proof.
+  unfold EmbeddedRegistry_len, emb_stream, tar_open, tar_getmembers, emb_len, emb_index.
+  now rewrite map_length.
+Qed.
+
+(* an entry that loads: its record has exactly one resistance cassette and the entity constructor accepts it *)
+Definition loadable (e : tarentry) : Prop := gr_resistance (te_record e) <> None /\ gr_entity (te_record e) <> None.
+
+Definition item_of (e : tarentry) : regitem :=
+  let r := te_record e in
+  mk_Item (gr_id r) (gr_name r) (match gr_resistance r with Some x => x | None => 0%nat end)
+          (match gr_entity r with Some x => x | None => 0%nat end).
+
+Definition data_step (d : list (string * regitem)) (e : tarentry) : list (string * regitem) :=
+  dict_set String.eqb d (gr_id (te_record e)) (item_of e).
+
+Lemma data_eq self : Forall loadable (emb_archive self) ->
+  EmbeddedRegistry_data self = Ok (fold_left data_step (emb_archive self) []).
+Proof.
+  intros Hl. unfold EmbeddedRegistry_data, emb_stream, tar_open_gz, tar_iter. cbv zeta.
+  match goal with |- bind (py_for0 _ _ ?b) _ = _ => set (body := b) end.
+  assert (H : forall a d, Forall loadable a -> py_for0 a d body = Ok (fold_left data_step a d)).
+  { induction a as [|e a IH]; intros d H; cbn [py_for0 fold_left]; [reflexivity|].
+    inversion H as [|? ? [Hr He] Ha]; subst.
+    unfold body at 1.
+    unfold io_wrap, tar_extractfile, grec_circular, seqio_read, EmbeddedRegistry_load_name,
+      EmbeddedRegistry_load_resistance, emb_load_entity, find_resistance, grec_entity, grec_id, grec_name. cbn [bind].
+    destruct (gr_resistance (te_record e)) as [x|] eqn:Ex; [|congruence].
+    destruct (gr_entity (te_record e)) as [y|] eqn:Ey; [|congruence]. cbn [bind py_try].
+    rewrite <- (IH _ Ha). f_equal. unfold data_step, item_of. now rewrite Ex, Ey. }
+  rewrite (H _ _ Hl). reflexivity.
+Qed.
+
+Lemma dict_get_set d k k' (v : regitem) :
+  dict_get String.eqb (dict_set String.eqb d k v) k' = if String.eqb k k' then Some v else dict_get String.eqb d k'.
+Proof.
+  induction d as [|[k0 v0] d IH]; cbn.
+  - reflexivity.
+  - destruct (String.eqb k0 k) eqn:E0; cbn.
+    + apply String.eqb_eq in E0. subst k0. destruct (String.eqb k k'); reflexivity.
+    + rewrite IH. destruct (String.eqb k0 k') eqn:E1; [|reflexivity].
+      apply String.eqb_eq in E1. subst k0. now rewrite String.eqb_sym, E0.
+Qed.
+
+Lemma data_lookup : forall a d k,
+  dict_get String.eqb (fold_left data_step a d) k =
+  match find (fun e => String.eqb (gr_id (te_record e)) k) (rev a) with
+  | Some e => Some (item_of e)
+  | None => dict_get String.eqb d k
+  end.
+Proof.
+  induction a as [|e a IH]; intros d k; cbn [fold_left rev find]; [reflexivity|].
+  rewrite IH. 
+  assert (Hf : forall l, find (fun e0 => String.eqb (gr_id (te_record e0)) k) (l ++ [e]) =
+                        match find (fun e0 => String.eqb (gr_id (te_record e0)) k) l with
+                        | Some x => Some x
+                        | None => if String.eqb (gr_id (te_record e)) k then Some e else None
+                        end).
+  { induction l as [|x l IHl]; cbn; [destruct (String.eqb _ k); reflexivity|].
+    destruct (String.eqb (gr_id (te_record x)) k); [reflexivity|exact IHl]. }
+  rewrite Hf. destruct (find _ (rev a)); [reflexivity|].
+  unfold data_step. rewrite dict_get_set. destruct (String.eqb (gr_id (te_record e)) k); reflexivity.
+Qed.
+
+(* registry[key]: the item built from the LAST member whose record has that id (a dictionary filled
+   in archive order), KeyError when there is none — emb_lookup of the model *)
+Theorem EmbeddedRegistry_getitem_eq self k : Forall loadable (emb_archive self) ->
+  EmbeddedRegistry_getitem self k =
+  match emb_lookup String.eqb (emb_index self) k with
+  | Some (name, id) => match find (fun e => String.eqb (gr_id (te_record e)) k) (rev (emb_archive self)) with
+                       | Some e => Ok (item_of e) | None => Err (XKeyError (KeyStr k)) end
+  | None => Err (XKeyError (KeyStr k))
+  end.
+Proof.
+  intros Hl. unfold EmbeddedRegistry_getitem. rewrite (data_eq self Hl). cbn [bind]. unfold dict_getitem_str. rewrite data_lookup. cbn [dict_get].
+  unfold emb_lookup, emb_index. rewrite <- map_rev.
+  induction (rev (emb_archive self)) as [|e l IH]; cbn [map find snd]; [reflexivity|].
+  destruct (String.eqb (gr_id (te_record e)) k); [reflexivity|exact IH].
+Qed.
+
+(* ---------- FilesystemRegistry ---------------------------------------------------------------- *)
+
+Definition fs_listing (self : fsreg) : list (string * bool) := map fst (fsr_listing self).
+
+Lemma filterdir_files self p f x :
+  map fi_name (fs_filterdir self p f x) = fs_files (glob_matches (fsr_exts self)) (fs_listing self).
+Proof.
+  unfold fs_filterdir, fs_files, fs_listing. rewrite map_map. cbn [fi_name].
+  induction (fsr_listing self) as [|[[n b] r] l IH]; cbn; [reflexivity|].
+  destruct (b && glob_matches (fsr_exts self) n); cbn; now rewrite IH.
+Qed.
+
+Theorem FilesystemRegistry_iter_eq self :
+  FilesystemRegistry_iter self = Ok (fs_iter splitext_stem (glob_matches (fsr_exts self)) (fs_listing self)).
+Proof.
+  unfold FilesystemRegistry_iter, fs_iter. rewrite <- (filterdir_files self "/" (fsreg_files self) ["*"%string]).
+  rewrite (py_for0_map (fun f => splitext_stem (fi_name f))) by reflexivity. cbn [app bind]. now rewrite map_map.
+Qed.
+
+Theorem FilesystemRegistry_len_eq self :
+  FilesystemRegistry_len self = Ok (Z.of_nat (fs_len (glob_matches (fsr_exts self)) (fs_listing self))).
+Proof.
+  unfold FilesystemRegistry_len, fs_len. rewrite <- (filterdir_files self "/" (fsreg_files self) ["*"%string]).
+  now rewrite map_length.
+Qed.
+
+(* registry[key]: the first listed file matching the extensions whose stem is the key is opened,
+   its record renamed to the key, characterised, its resistance looked up; KeyError when no file
+   has that stem *)
+Theorem FilesystemRegistry_getitem_eq self k :
+  FilesystemRegistry_getitem self k =
+  match fs_lookup String.eqb splitext_stem (glob_matches (fsr_exts self)) (fs_listing self) k with
+  | Some n => r <- fs_open self n ;;
+              let r' := grec_set_id r (splitext_stem n) in
+              ent <- grec_entity r' ;; res <- find_resistance r' ;;
+              Ok (mk_Item (splitext_stem n) (gr_description r) res ent)
+  | None => Err (XKeyError (KeyStr k))
+  end.
+Proof.
+  unfold FilesystemRegistry_getitem, fs_lookup. rewrite <- (filterdir_files self "/" (fsreg_files self) ["*"%string]).
+  induction (fs_filterdir self "/" (fsreg_files self) ["*"%string]) as [|f l IH]; cbn [py_for map find bind]; [reflexivity|].
+  unfold py_splitext at 1. cbn [fst snd]. unfold py_eq, PyEq_string.
+  destruct (String.eqb (splitext_stem (fi_name f)) k) eqn:E.
+  - destruct (fs_open self (fi_name f)) as [r|x]; cbn [bind]; [|reflexivity].
+    unfold fsreg_characterize, grec_circular, seqio_read.
+    destruct (grec_entity (grec_set_id r (splitext_stem (fi_name f)))) as [ent|x]; cbn [bind]; [|reflexivity].
+    destruct (find_resistance (grec_set_id r (splitext_stem (fi_name f)))) as [res|x]; cbn [bind]; reflexivity.
+  - exact IH.
+Qed.
